@@ -73,7 +73,7 @@ SHAPES_QUICK = [
     ("a", "s"), ("l", "i"), ("a", "M"), ("l", "L"), ("M", "b"), ("M", "M"), ("L", "L"), ("X", "X"), ("X", "i"), ("Md", "b"),
     ("L", "Mk"), ("i", "j"), ("X", "Li"), ("Mnk", "X"), ("Mlen", "0"), ("s", "s2"), ("1", "M"), ("e", "L"), ("b", "M"),
     # 3 parts
-    ("a", "c", "i"), ("M", "c", "Lv"), ("X", "X", "X"), ("l", "L", "s"), ("L", "M", "L"), ("X", "Xiv", "b"), ("M", "L", "Mv"),
+    ("a", "c", "i"), ("M", "c", "Lv"), ("X", "X", "X"), ("l", "L", "s"), ("L", "M", "L"), ("X", "Xiv"), ("M", "L", "Mv"),
     ("i", "1", "j"), ("Mkv", "M", "0"), ("l", "Liv", "X"),
 ]
 SHAPES_MORE = [
